@@ -7,7 +7,8 @@
    ([valid_env]: exactly the generated base units, all positive). *)
 From Coq Require Import String List ZArith QArith Reals Qreals Lra.
 Import ListNotations.
-From PP Require Import Model.C43 Gen.C43_tables Proofs.C43 Proofs.C43_transfer.
+From PP Require Import Model.C43 Model.C43_fields Model.C43_qdims Gen.C43_tables Proofs.C43
+  Proofs.C43_transfer Proofs.C43_transfer2 Proofs.C43_fields Proofs.C43_qdims.
 Open Scope string_scope.
 Open Scope R_scope.
 
@@ -148,6 +149,80 @@ Theorem C43_transfer :
 Proof. exact transfer_gen. Qed.
 Print Assumptions C43_transfer.
 
+(* TRANSFER for the material-constant wrappers: a rational run of construction + to_units
+   is the real model on the embedded data. *)
+Theorem C43_material_transfer :
+  forall (pif : Q) (env env' : list (string * Q)) (si : list (string * string))
+         (cs : list (string * Q)) (c c' : constants Q),
+    (0 < pif)%Q -> env_posQ env -> env_posQ env' ->
+    make_constants (QOps pif) derived_table other_attrs env si cs = Ok c ->
+    to_units (QOps pif) derived_table other_attrs env' si c = Ok c' ->
+    make_constants (ROps (Q2R pif)) derived_table other_attrs (envR env) si (mapv Q2R cs)
+      = Ok (cmap c) /\
+    to_units (ROps (Q2R pif)) derived_table other_attrs (envR env') si (cmap c) = Ok (cmap c').
+Proof. exact material_transfer_gen. Qed.
+Print Assumptions C43_material_transfer.
+
+(* Units.__init__ (a function over Q only): it returns exactly when every keyword is a
+   number for a base unit and s is np.isclose to 1; the object then has one attribute per
+   base unit, holding the keyword value or the default.  Otherwise ValueError (a non-number
+   or an unknown key) resp. NotImplementedError (time scaling). *)
+Theorem C43_units_init :
+  forall (bases : list (string * Q)) (kw : list (string * kwval)),
+    (forall env, units_init bases kw = Ok env ->
+       map fst env = map fst bases /\
+       Forall (fun kv => match snd kv with KNum _ => mem (fst kv) (map fst bases) = true
+                                         | KOther => False end) kw /\
+       isclose1 (kw_get kw "s" 1) = true /\
+       forall b d, In (b, d) bases -> In (b, kw_get kw b d) env) /\
+    (forall e, units_init bases kw = Err e ->
+       (e = ValueErr /\
+        Exists (fun kv => match snd kv with KNum _ => mem (fst kv) (map fst bases) = false
+                                          | KOther => True end) kw) \/
+       (e = NotImplErr /\ isclose1 (kw_get kw "s" 1) = false)).
+Proof. exact units_init_spec. Qed.
+Print Assumptions C43_units_init.
+
+(* Every dataclass field of every material class (generated: class_fields) is declared in
+   the class's SI_units table; hence the constants of an object built from ANY keyword
+   values for ANY of its fields (defaults for the rest) satisfy the hypothesis of
+   C43_material_roundtrip: construction and to_units never raise. *)
+Theorem C43_fields_declared :
+  fields_ok si_tables class_fields = true /\
+  forall cls fields (given : list (string * R)),
+    In (cls, fields) class_fields ->
+    exists tab, In (cls, tab) si_tables /\
+                fields_declared tab (override (mapv Q2R fields) given).
+Proof. exact fields_gen. Qed.
+Print Assumptions C43_fields_declared.
+
+(* DIMENSION BOOKKEEPING WITH DECIMAL POWERS.  As C43_dimension_sound, for unit strings
+   whose powers are arbitrary decimals (normal form with rational exponents; a non-integer
+   power is accepted on units with coefficient 1 and no pi: base units, Pa, J, N, W). *)
+Theorem C43_dimension_sound_real_powers :
+  forall (pi_ : R) (env : list (string * R)) (u1 : string) (m1 : qmono),
+    0 < pi_ -> valid_env env ->
+    qmono_of_units base_names derived_table u1 = Some m1 ->
+    0 < qeval pi_ (map snd env) m1 /\
+    (forall v ts, convert (ROps pi_) derived_table other_attrs env v u1 ts =
+                  Ok (apply_factor ts (qeval pi_ (map snd env) m1) v)) /\
+    (forall u2 m2, qmono_of_units base_names derived_table u2 = Some m2 ->
+       qmono_eqb m1 m2 = true ->
+       forall v ts, convert (ROps pi_) derived_table other_attrs env v u1 ts =
+                    convert (ROps pi_) derived_table other_attrs env v u2 ts).
+Proof. exact qdimension_lemma. Qed.
+Print Assumptions C43_dimension_sound_real_powers.
+
+(* e.g. Pa^0.5*m^0.5 = kg^0.5*s^-1, J^1.5 = kg^1.5*m^3*s^-3, W^-0.25*W^0.25 = 1 *)
+Theorem C43_real_power_spellings :
+  forall (pi_ : R) (env : list (string * R)), 0 < pi_ -> valid_env env ->
+    Forall (fun ab => forall v ts,
+              convert (ROps pi_) derived_table other_attrs env v (fst ab) ts =
+              convert (ROps pi_) derived_table other_attrs env v (snd ab) ts)
+           real_power_spellings.
+Proof. exact real_spellings_lemma. Qed.
+Print Assumptions C43_real_power_spellings.
+
 (* Non-vacuity.  A valid Units object; a unit string with a normal form (so the
    hypotheses of C43_dimension_sound / the Ok-branch of C43_roundtrip are inhabited);
    the model executed in Q on the same string; a class table with a declared field. *)
@@ -171,4 +246,28 @@ Proof.
     exists tab. split; [now apply assoc_In|].
     vm_compute in E. injection E as <-.
     unfold fields_declared. repeat constructor; cbn; discriminate.
+Qed.
+
+Example C43_nonvacuous2 :
+  (exists m, qmono_of_units base_names derived_table "Pa^0.5 * m^-1.5" = Some m) /\
+  units_init base_units [("m", KNum (2 # 1)); ("kg", KNum (1 # 8))]%Q =
+    Ok [("m", 2 # 1); ("s", 1); ("kg", 1 # 8); ("K", 1); ("mol", 1); ("rad", 1)]%Q /\
+  units_init base_units [("s", KNum (2 # 1))]%Q = Err NotImplErr /\
+  units_init base_units [("Pa", KNum (2 # 1))]%Q = Err ValueErr /\
+  (exists fields, In ("SolidConstants", fields) class_fields /\ assoc "porosity" fields <> None) /\
+  (exists c c',
+     make_constants (QOps (3 # 1)) derived_table other_attrs
+       [("m", 2 # 1); ("s", 1); ("kg", 1 # 8); ("K", 1); ("mol", 1); ("rad", 1)]%Q
+       [("permeability", "m^2")] [("permeability", 12 # 1)]%Q = Ok c /\
+     to_units (QOps (3 # 1)) derived_table other_attrs
+       [("m", 1 # 2); ("s", 1); ("kg", 1); ("K", 1); ("mol", 1); ("rad", 1)]%Q
+       [("permeability", "m^2")] c = Ok c' /\ attrs c' = [("permeability", 48 # 1)]%Q).
+Proof.
+  split; [vm_compute; eexists; reflexivity|].
+  split; [vm_compute; reflexivity|]. split; [vm_compute; reflexivity|].
+  split; [vm_compute; reflexivity|]. split.
+  - destruct (assoc "SolidConstants" class_fields) as [f|] eqn:E; [|vm_compute in E; discriminate].
+    exists f. split; [now apply assoc_In|]. vm_compute in E. injection E as <-.
+    vm_compute. discriminate.
+  - vm_compute. do 2 eexists. repeat split.
 Qed.
